@@ -290,8 +290,11 @@ class C16(Prop):
                 elif op == "extend_types":
                     c = w.pick("cls", on)
                     tc = w.pick("tc", on + fl)
-                    if not getattr(c, "_CREATED_WITH_DEFAULT_TYPES", False):
-                        w.add("cls", V.extend(c, type_checker=tc), desc)
+                    # no class of these histories is created with the deprecated default_types argument, so
+                    # extending with a type checker must always work (documented API)
+                    e = w.add("cls", V.extend(c, type_checker=tc), desc)
+                    if e.TYPE_CHECKER is not tc and probe_typechecker(e.TYPE_CHECKER) != probe_typechecker(tc):
+                        res.fail(("extend-ignores-type-checker",), desc)
                 elif op in ("create", "create_versioned"):
                     c = w.pick("cls", on)
                     meta = dict(c.META_SCHEMA)
